@@ -31,6 +31,9 @@ type Input struct {
 	// Hold: other trees that are encoded with Tree.Bytes AFTER this tree's bytes were obtained and BEFORE they are
 	// decoded (the storage's save goroutines call Bytes for one tree after another and keep the slices)
 	Hold [][]treeu.Stack `json:"hold,omitempty"`
+	// Merged: the tree is ACCUMULATED the way storage does it: built from Stacks with Insert, then every entry of
+	// Merged is built with Insert and merged into it with Tree.Merge (same or overlapping stack sets)
+	Merged [][]treeu.Stack `json:"merged,omitempty"`
 	// Seq: further encodings performed one after another on ONE second tree object built from the same input
 	// (nothing is inserted or merged in between), each with its own cap
 	Seq []SeqStep `json:"seq,omitempty"`
@@ -139,6 +142,9 @@ func build(in Input) *tree.Tree {
 		return tree.VerifBuild(treeu.FromJ(in.Tree))
 	}
 	t := treeu.Build(in.Stacks)
+	for _, ss := range in.Merged {
+		t.Merge(treeu.Build(ss))
+	}
 	if in.CloneD != 0 {
 		t = t.Clone(new(big.Rat).SetFrac(new(big.Int).SetUint64(in.CloneM), new(big.Int).SetUint64(in.CloneD)))
 	}
@@ -351,7 +357,7 @@ func run(in Input) lib.Result {
 		NonTrivial: ties > 0 || (in.Cap >= n-1 && in.Cap <= n+1),
 		Feat: map[string]interface{}{"nodes_class": sizeClass(n), "cap_vs_nodes": rel, "ties_class": sizeClass(ties),
 			"zero_total_nodes_class": sizeClass(zeros), "mode": mode, "built_by": builtBy(in), "pre_dict": len(in.Pre) > 0,
-			"threshold_zero": minv == 0, "malformed_stream": badKind(in), "totals": totalsClass(orig), "cloned": in.CloneD != 0, "held_across_other_encodes": len(in.Hold), "sequence_steps": len(in.Seq), "sequence_shape": seqShape(in.Seq, n), "big_tree": in.Big != nil},
+			"threshold_zero": minv == 0, "malformed_stream": badKind(in), "totals": totalsClass(orig), "cloned": in.CloneD != 0, "held_across_other_encodes": len(in.Hold), "sequence_steps": len(in.Seq), "sequence_shape": seqShape(in.Seq, n), "big_tree": in.Big != nil, "merges": len(in.Merged)},
 		Obs: map[string]interface{}{"nodes": n, "minval": minv},
 	}
 }
@@ -364,6 +370,9 @@ func badKind(in Input) string {
 }
 
 func builtBy(in Input) string {
+	if len(in.Merged) > 0 {
+		return "Insert+Merge"
+	}
 	if in.Tree != nil {
 		return "VerifBuild"
 	}
@@ -579,6 +588,35 @@ func genSeq(r *rand.Rand, n int) []SeqStep {
 	}
 }
 
+// a tree accumulated through 2-5 merges of the same / overlapping stack sets, caps just above the real size
+func genMerged(r *rand.Rand) Input {
+	var in Input
+	in.Mode = "merged"
+	in.Pre = genPre(r)
+	base := treeu.RandStacks(r, lib.Range(r, 1, 8), 5, 6)
+	in.Stacks = base
+	for i := lib.Range(r, 2, 5); i > 0; i-- {
+		var ss []treeu.Stack
+		switch r.Intn(3) {
+		case 0: // the same stacks again
+			ss = append(ss, base...)
+		case 1: // a subset plus something new
+			for _, s := range base {
+				if r.Intn(2) == 0 {
+					ss = append(ss, s)
+				}
+			}
+			ss = append(ss, treeu.RandStacks(r, lib.Range(r, 0, 2), 5, 6)...)
+		default: // overlapping by shared prefixes only
+			ss = treeu.RandStacks(r, lib.Range(r, 1, 5), 5, 6)
+		}
+		in.Merged = append(in.Merged, ss)
+	}
+	n := treeu.Size(build(in).VerifDump())
+	in.Cap = lib.Pick(r, []int{n, n + 1, n + 1, n + 2, n + 3, 1024})
+	return in
+}
+
 func genBigInput(r *rand.Rand) Input {
 	depth := 250
 	chains := lib.Range(r, 265, 355) // 66.5k .. 89k nodes
@@ -609,6 +647,9 @@ func gen(r *rand.Rand, idx int, tier string) Input {
 		return genBigInput(r)
 	}
 	in := gen0(r, idx, tier)
+	if idx%8 == 3 {
+		in = genMerged(r)
+	}
 	in.Hold = genHold(r)
 	if in.Bad == nil {
 		in.Seq = genSeq(r, treeu.Size(build(in).VerifDump()))
